@@ -50,8 +50,11 @@ def main(repo):
     try:
         # candidate names: every identifier-like string constant of the eml package's sources + what the table uses
         cands = set()
-        for mod in (rule,):
-            cands |= set(re.findall(r"""["']([A-Za-z][A-Za-z0-9_]*)["']""", inspect.getsource(mod)))
+        pkg_dir = os.path.dirname(os.path.realpath(rule.__file__))
+        for fn in sorted(os.listdir(pkg_dir)):                      # the whole eml package: code may move between its modules
+            if fn.endswith(".py"):
+                with open(os.path.join(pkg_dir, fn), encoding="utf-8") as f:
+                    cands |= set(re.findall(r"""["']([A-Za-z][A-Za-z0-9_]*)["']""", f.read()))
         for rn, data in rule.rules_dict.items():
             cr = data[2].get("content_rules", []) if isinstance(data[2], dict) else []
             cands |= {c for c in cr if isinstance(c, str)}
